@@ -1,7 +1,7 @@
 """C03 The corrected design vector is a canonical fixed point describing the instance.\n\nCorrespondence: see harness/procpass.py - corrected vector in range, decode(decode(x).x) = decode(x), active selection\nvariables name the wired option (through DesVar.options), DV nodes carry the reported values, one design per corrected\nvector and one corrected vector per design."""
 from .. import proc, procpass
 
-KINDS = {'corrected-out-of-range', 'not-idempotent', 'vector-does-not-describe-instance', 'same-vector-different-design', 'same-design-different-vectors', 'dv-value-not-reported'}
+KINDS = {'corrected-out-of-range', 'not-idempotent', 'vector-does-not-describe-instance', 'same-vector-different-design', 'same-design-different-vectors', 'dv-value-not-reported', 'lean-decode-vector'}
 RULE = ('seeded problems from streams (tame, tree, cons, dv, conn, conn-dv) x both selection encoders; per problem every vector of the declared design space when <= 200 vectors (continuous variables at 3 sample points), else 200 samples; a case is one (problem, encoder); non-trivial = >= 2 architectures or a connection choice or DV nodes; distinct by content hash')
 BUDGET = {'quick': 110, 'thorough': 1500}
 JOBS = {'quick': 4, 'thorough': 16}
